@@ -16,6 +16,7 @@ import (
 	"github.com/resonatehq/resonate/internal/metrics"
 
 	"github.com/resonatehq/resonate/internal/util"
+	"github.com/resonatehq/resonate/internal/verifhook"
 	"github.com/resonatehq/resonate/pkg/lock"
 	"github.com/resonatehq/resonate/pkg/promise"
 	"github.com/resonatehq/resonate/pkg/schedule"
@@ -484,6 +485,7 @@ func (w *SqliteStoreWorker) Start() {
 		if len(sqes) > 0 {
 			counter.Set(float64(len(sqes)))
 			for _, cqe := range w.Process(sqes) {
+				verifhook.Point("store.sqlite.beforeEnqueueCQE")
 				w.aio.EnqueueCQE(cqe)
 				counter.Dec()
 			}
